@@ -104,8 +104,9 @@ def rand_rrule(g, start, opts):
     if g.chance(0.08) and f in ('YEARLY', 'MONTHLY') and not opts.get('avoid_shift'):
         parts.append('SHIFT=' + g.pick(['1', '7', '-1', '1B', '1B+', '-2B']))
         use['shift'] = 1
-    if g.chance(0.06) and f in ('YEARLY', 'MONTHLY'):
-        parts.append('SCALE=' + g.pick(['HIJRI', 'HIJRI.IA', 'GREGORIAN']))
+    if g.chance(0.1) and f in ('YEARLY', 'MONTHLY'):
+        parts.append('SCALE=' + g.pick(['HIJRI', 'HIJRI', 'HIJRI.UMMULQURA', 'HIJRI.DIYANET', 'HIJRI.IA', 'HIJRI.IC', 'HIJRI.IIA',
+                                        'HIJRI.IIIC', 'HIJRI.IVA', 'HIJRI.IVC', 'GREGORIAN']))
         use['scale'] = 1
     end = g.wpick([('count', 5), ('until', 2), ('none', 2)])
     if end == 'count':
@@ -187,6 +188,9 @@ def gen_case(seed, tier, opts=None):
         ks.add(g.wpick([(g.rint(2, 20), 3), (g.pick([31, 62, 63, 64, 65, 66]), 2), (g.pick([126, 127, 128, 129, 190]), 1),
                         (g.rint(21, 200), 1)]))
     for u in uses:
+        if u.get('scale'):
+            # the tabulated Hijri calendars end in the 2070s: run up to and past the end of the table
+            ks.update([45, 130, 200])
         if 'count' in u:
             for d in (-1, 0, 1):
                 if u['count'] + d >= 0 and g.chance(0.5):
@@ -286,10 +290,11 @@ def judge_task(t, K, loose=False):
     if loose:
         return V
     def upto2099(toks):
-        # (the recurrence engine's calendar is off beyond 2099, where 2100 is no leap year: not a C05 matter)
+        # (echse's instants span 1902..2098; beyond 2099 the engine's calendar is off - 2100 is no leap year - and
+        # years wrap at 4095: not a C05 matter)
         out = []
         for x in toks:
-            if x != 'END' and x[:4].isdigit() and int(x[:4]) >= 2100:
+            if x != 'END' and x[:4].isdigit() and not 1900 <= int(x[:4]) <= 2099:
                 break
             out.append(x)
         return out
@@ -317,6 +322,19 @@ def loose_tasks(text):
     return out
 
 
+def crash_report(data, job):
+    """stderr of one crashing job, symbolised (slow path, crashes only)"""
+    import os
+    import subprocess
+    env = dict(os.environ, SIMP_STDERR='1', ASAN_OPTIONS='symbolize=1', UBSAN_OPTIONS='print_stacktrace=1')
+    try:
+        p = subprocess.run([simp.BUILD + '/simp'], input=(simp.input_line(data) + '\n' + job + '\n').encode('latin1'),
+                           stdout=subprocess.DEVNULL, stderr=subprocess.PIPE, timeout=60, env=env)
+        return p.stderr.decode('latin1', 'replace')
+    except Exception as e:
+        return 'no report: %r' % e
+
+
 def check_case(text, ks, strict=False):
     """STRICT: compare occurrences of the known-finding classes too (their witnesses)"""
     loose = [] if strict else loose_tasks(text)
@@ -342,7 +360,14 @@ def check_case(text, ks, strict=False):
             if 'signal=14' in last:
                 info['rt_timeout'] = info.get('rt_timeout', 0) + 1
                 continue
-            V.append(('R-CRASHFREE serialise-crash', 'rt %d: %s' % (k, last), k))
+            rep = crash_report(data, 'rt %d %d 9' % (k, NOCC))
+            if re.search(r'scale\.c:\d+:\d+: runtime error: signed integer overflow', rep):
+                # undefined arithmetic inside the Hijri conversion formulas (a pure function, C15's matter): it does
+                # not corrupt memory; set aside like the engine crashes of the control run
+                info['engine_arith_overflow'] = info.get('engine_arith_overflow', 0) + 1
+                continue
+            top = re.findall(r'#0 0x[0-9a-f]+ in (\S+) (\S+)', rep)
+            V.append(('R-CRASHFREE serialise-crash', 'rt %d: %s%s' % (k, last, (' in %s %s' % top[0]) if top else ''), k))
             continue
         for t in parse_rt(out):
             for sig, detail in judge_task(t, k, t['i'] in loose):
